@@ -122,6 +122,9 @@ def run(pid, tier, repo, root, log, pairs_for=()):
     entries = [e for e in registry(root) if (pid in e['props'] and (tier == 'thorough' or e.get('tier', 'quick') == 'quick'))
                or (set(e.get('pairs', [])) & set(pairs_for))]
     out = {'obligations': [], 'failures': [], 'bounded': [], 'trusted': [], 'summary': {}, 'cmd': ''}
+    if os.environ.get('VERIF_SKIP_KANI'):
+        # developer sweeps only (never set by a registered command): Verus lane alone
+        entries = [e for e in entries if set(e.get('pairs', [])) & set(pairs_for)]
     if not entries:
         return out
     all_entries = list(entries)
